@@ -83,6 +83,10 @@ func processTopFile(dir string) {
 		if sizes >= clocConfig.TopSizes {
 			sizes = clocConfig.TopSizes
 		}
+		if sizes < 0 {
+			// --top-size below zero: an empty table, not a slice out of range
+			sizes = 0
+		}
 
 		for _, file := range summary.Files[:sizes] {
 			location := strings.TrimLeft(file.Location, dir)
